@@ -430,6 +430,30 @@ func controlDeps(b *ssa.BasicBlock) []*ssa.If {
 	return out
 }
 
+// controlDepsAll is the transitive closure of controlDeps: every condition whose outcome decides whether b runs
+// ( if a || b { continue }; if c { X }  makes X depend on c directly and on a, b through c's block ).
+func controlDepsAll(b *ssa.BasicBlock) []*ssa.If {
+	seen := map[*ssa.If]bool{}
+	var out []*ssa.If
+	work := []*ssa.BasicBlock{b}
+	done := map[*ssa.BasicBlock]bool{b: true}
+	for len(work) > 0 {
+		x := work[len(work)-1]
+		work = work[:len(work)-1]
+		for _, iff := range controlDeps(x) {
+			if !seen[iff] {
+				seen[iff] = true
+				out = append(out, iff)
+			}
+			if !done[iff.Block()] {
+				done[iff.Block()] = true
+				work = append(work, iff.Block())
+			}
+		}
+	}
+	return out
+}
+
 func isPanicCall(i ssa.Instruction) (bool, string) {
 	if _, ok := i.(*ssa.Panic); ok {
 		return true, "panic"
